@@ -1,6 +1,9 @@
 import FitModel.ProfileSpec
 import FitModel.Generated.Xlsx
+import FitModel.Generated.XlsxTypes
 import FitModel.Generated.ProfileTables
+import FitModel.Generated.ProfileTypes
+import FitModel.Generated.ProfileStrs
 import FitModel.Generated.GenDigest
 /-!
 # C17 — Generated profile code is exactly what Profile.xlsx prescribes
